@@ -375,6 +375,27 @@ func directedLayoutCase(t *rapid.T, c *core.Ctx, which int) *multiCase {
 		mapf(sub, "example.com/gen/psub", "out/psub/common.go", "SubCommon")
 		m.crossRef = 2
 		c.Count("shape.directed.same_basename_parent_and_sibling")
+	case 2:
+		// two ids mapped to DIFFERENT packages whose import paths end in the same element, the first
+		// referring to a definition and to the root of the second
+		partDef := obj(model.Prop{Name: "sku", Node: str()})
+		partDef.Required = []string{"sku"}
+		ship := &model.File{RelPath: "shipping.json", ID: "https://example.com/shipping", Root: obj(model.Prop{Name: "carrier", Node: str()}),
+			Defs: []model.Def{{Name: "ShipPart", Node: partDef}}}
+		bill := &model.File{RelPath: "billing.json", ID: "https://example.com/billing", Root: obj(
+			model.Prop{Name: "part", Node: &model.Node{Kind: model.KRef, Ref: "shipping.json#/$defs/ShipPart", Target: partDef}},
+			model.Prop{Name: "shipment", Node: &model.Node{Kind: model.KRef, Ref: "shipping.json", Target: ship.Root}},
+			model.Prop{Name: "parts", Node: &model.Node{Kind: model.KArray, Items: &model.Node{Kind: model.KRef, Ref: "shipping.json#/$defs/ShipPart", Target: partDef}}})}
+		m.files = []*model.File{bill, ship}
+		m.inputs = []string{bill.RelPath}
+		if rapid.Bool().Draw(t, "bothargs") {
+			m.inputs = []string{bill.RelPath, ship.RelPath}
+		}
+		last := rapid.SampledFrom([]string{"model", "types", "v1"}).Draw(t, "lastelem")
+		mapf(bill, "example.com/billing/"+last, "out/billing/"+last+"/gen.go", "")
+		mapf(ship, "example.com/shipping/"+last, "out/shipping/"+last+"/gen.go", "")
+		m.crossRef = 3
+		c.Count("shape.directed.two_packages_same_last_element")
 	default:
 		ten, zero := jv.IntV(int64(rapid.IntRange(1, 500).Draw(t, "defmax"))), jv.IntV(0)
 		limits := obj(model.Prop{Name: "max", Node: &model.Node{Kind: model.KInteger, Default: &ten}}, model.Prop{Name: "min", Node: &model.Node{Kind: model.KInteger, Default: &zero}}, model.Prop{Name: "label", Node: str()})
@@ -425,7 +446,7 @@ func TestC20(t *testing.T) {
 		if shared {
 			c.Count("shape.shared_ref_text")
 		}
-		if d := rapid.IntRange(0, 15).Draw(rt, "directed"); d < 2 {
+		if d := rapid.IntRange(0, 15).Draw(rt, "directed"); d < 3 {
 			m = directedLayoutCase(rt, c, d)
 		}
 		if sameDir {
